@@ -126,6 +126,8 @@ pub struct Lab {
     pub born: Instant,
     /// how long a step waits for the sentinel's reply before declaring the worker wedged
     pub patience: Duration,
+    /// pin the sentinel's protocol (default: alternate)
+    pub force_sentinel: Option<Proto>,
 }
 
 #[derive(Debug)]
@@ -175,7 +177,7 @@ impl Lab {
         let pk = key.public();
         let srv = srv_value(&pk);
         let socks = (0..nsocks).map(|_| client_socket()).collect();
-        Ok(Lab { server, events: mio::Events::with_capacity(1024), addr, pk, srv, socks, sentinel: client_socket(), queue, cfg, sentinel_ctr: 0, born: Instant::now(), patience: Duration::from_secs(5) })
+        Ok(Lab { server, events: mio::Events::with_capacity(1024), addr, pk, srv, socks, sentinel: client_socket(), queue, cfg, sentinel_ctr: 0, born: Instant::now(), patience: Duration::from_secs(5), force_sentinel: None })
     }
 
     pub fn ensure_socks(&mut self, n: usize) {
@@ -186,7 +188,7 @@ impl Lab {
 
     pub fn make_sentinel(&mut self) -> (Proto, Vec<u8>) {
         self.sentinel_ctr += 1;
-        let proto = if self.sentinel_ctr % 2 == 0 { Proto::Ietf } else { Proto::Classic };
+        let proto = self.force_sentinel.unwrap_or(if self.sentinel_ctr % 2 == 0 { Proto::Ietf } else { Proto::Classic });
         let nonce = sha512(&[b"sentinel", &self.sentinel_ctr.to_le_bytes(), &self.addr.port().to_le_bytes()])[..proto.nonce_len()].to_vec();
         (proto, build_request(proto, &nonce, 1024, &[VER_DRAFT13], None))
     }
